@@ -59,14 +59,14 @@ theorem zip_fst_eq_take {α β} (l1 : List α) (l2 : List β) :
     | nil => simp
     | cons b l2 => simp [ih]
 
-def mkCall (wave : Nat) (rs : List (Nat × List Res)) (b : Batch) : Call :=
-  ⟨wave, b.key, b.items, b.dests, resultsFor rs b.key⟩
+def mkCall (wave lo : Nat) (rs : List (Nat × List Res)) (b : Batch) : Call :=
+  ⟨wave, lo, b.key, b.items, b.dests, resultsFor rs b.key⟩
 
-theorem flushOne_fresh (wave : Nat) (rs : List (Nat × List Res)) (s : St) (b : Batch)
+theorem flushOne_fresh (wave lo : Nat) (rs : List (Nat × List Res)) (s : St) (b : Batch)
     (h : ∀ p ∈ b.dests, p ∉ dIds s) (nd : b.dests.Nodup) :
-    flushOne wave rs s b =
+    flushOne wave lo rs s b =
       { s with delivered := (b.dests.zip (resultsFor rs b.key)).reverse ++ s.delivered,
-               calls := mkCall wave rs b :: s.calls,
+               calls := mkCall wave lo rs b :: s.calls,
                crashed := s.crashed || decide (b.dests.length < (resultsFor rs b.key).length),
                orphaned := b.dests.drop (resultsFor rs b.key).length ++ s.orphaned } := by
   unfold flushOne
@@ -92,11 +92,11 @@ def flushOrph (rs : List (Nat × List Res)) : List Batch → List Nat
 def tooLong (rs : List (Nat × List Res)) (b : Batch) : Bool :=
   decide (b.dests.length < (resultsFor rs b.key).length)
 
-theorem flushAll_fresh (wave : Nat) (rs : List (Nat × List Res)) (bs : List Batch) : ∀ (s : St),
+theorem flushAll_fresh (wave lo : Nat) (rs : List (Nat × List Res)) (bs : List Batch) : ∀ (s : St),
     (∀ p ∈ bs.flatMap (·.dests), p ∉ dIds s) → (bs.flatMap (·.dests)).Nodup →
-    flushAll wave rs s bs =
+    flushAll wave lo rs s bs =
       { s with delivered := flushDel rs bs ++ s.delivered,
-               calls := (bs.map (mkCall wave rs)).reverse ++ s.calls,
+               calls := (bs.map (mkCall wave lo rs)).reverse ++ s.calls,
                crashed := s.crashed || bs.any (tooLong rs),
                orphaned := flushOrph rs bs ++ s.orphaned } := by
   induction bs with
@@ -108,7 +108,7 @@ theorem flushAll_fresh (wave : Nat) (rs : List (Nat × List Res)) (bs : List Bat
     have ndr : (bs.flatMap (·.dests)).Nodup := (List.nodup_append.mp nd).2.1
     have disj : ∀ a ∈ b.dests, ∀ c ∈ bs.flatMap (·.dests), a ≠ c := (List.nodup_append.mp nd).2.2
     simp only [flushAll]
-    rw [flushOne_fresh wave rs s b (fun p hp => h p (by simp [hp])) ndb]
+    rw [flushOne_fresh wave lo rs s b (fun p hp => h p (by simp [hp])) ndb]
     rw [ih]
     · simp [flushDel, flushOrph, tooLong, Bool.or_assoc, List.append_assoc]
     · intro p hp
@@ -150,7 +150,7 @@ theorem step_batch {c : Cfg} {s s' : St} {k item p : Nat} {dep : Option Nat} (h 
       exact ⟨hc.1.1, hc.1.2, hc.2, (Option.some.inj h).symm, hd⟩
 
 theorem step_chain {c : Cfg} {s s' : St} {t : Nat} {ps : List Nat} (h : step c s (.chain t ps) = some s') :
-    s.crashed = false ∧ s.phase = .exec ∧ t = s.next ∧ (∀ p ∈ ps, p < s.next) ∧
+    s.crashed = false ∧ s.phase = .exec ∧ t = s.next ∧ (∀ p ∈ ps, s.execStart ≤ p ∧ p < s.next) ∧
     s' = { s with next := s.next + 1, running := ⟨t, ps⟩ :: s.running, chained := ps ++ s.chained } := by
   simp only [step] at h
   split at h
@@ -183,7 +183,7 @@ theorem step_fin {c : Cfg} {s s' : St} {t : Nat} {r : Res} (h : step c s (.fin t
 
 theorem step_idle {c : Cfg} {s s' : St} (h : step c s .idle = some s') :
     s.crashed = false ∧ s.phase = .exec ∧
-    (∃ p, p < s.next ∧ isDelivered s p = false ∧ s.chained.contains p = false) ∧
+    (∃ p, s.execStart ≤ p ∧ p < s.next ∧ isDelivered s p = false ∧ s.chained.contains p = false) ∧
     s' = { s with phase := .top, wave := s.wave + 1, progress := false, snap := s.delivered } := by
   simp only [step] at h
   split at h
@@ -195,14 +195,14 @@ theorem step_idle {c : Cfg} {s s' : St} (h : step c s .idle = some s') :
       simp only [List.any_eq_true, List.mem_range] at ha
       obtain ⟨p, hp, hh⟩ := ha
       simp at hh
-      refine ⟨hc.1, hc.2, ⟨p, hp, ?_, ?_⟩, h.symm⟩
+      refine ⟨hc.1, hc.2, ⟨p, hh.1.1, hp, ?_, ?_⟩, h.symm⟩
       · cases hd : isDelivered s p <;> simp_all
       · cases hd : s.chained.contains p <;> simp_all
     · cases h
 
 theorem step_flush {c : Cfg} {s s' : St} {rs : List (Nat × List Res)} (h : step c s (.flush rs) = some s') :
     s.crashed = false ∧ s.phase = .top ∧ s.batches ≠ [] ∧
-    s' = { flushAll s.wave rs s s.batches with batches := [], phase := .drain, progress := true } := by
+    s' = { flushAll s.wave s.execStart rs s s.batches with batches := [], phase := .drain, progress := true } := by
   simp only [step] at h
   split at h
   · cases h
@@ -264,7 +264,7 @@ theorem step_ret {c : Cfg} {s s' : St} (h : step c s .ret = some s') :
     split at h <;> simp_all
 
 theorem step_release {c : Cfg} {s s' : St} {t : Nat} (h : step c s (.release t) = some s') :
-    ∃ r, s.crashed = false ∧ c.fixed = true ∧ s.phase = .returned ∧
+    ∃ r, s.crashed = false ∧ c.fixed = true ∧ (t < s.execStart ∨ s.phase = .returned) ∧
       lookup s.blocked t = some r ∧ s' = took s t r := by
   simp only [step] at h
   split at h
@@ -274,8 +274,20 @@ theorem step_release {c : Cfg} {s s' : St} {t : Nat} (h : step c s (.release t) 
     · cases h
     · rename_i r hr
       simp at hc
-      exact ⟨r, hc.1.1, hc.1.2, hc.2, hr, (Option.some.inj h).symm⟩
+      refine ⟨r, hc.1.1, hc.1.2, ?_, hr, (Option.some.inj h).symm⟩
+      by_cases hlt : t < s.execStart
+      · exact Or.inl hlt
+      · exact Or.inr (hc.2 (by omega))
 
+theorem step_start {c : Cfg} {s s' : St} (h : step c s .start = some s') :
+    s.crashed = false ∧ s.phase = .returned ∧
+    s' = { s with phase := .exec, execStart := s.next, execWave := s.wave, exec := s.exec + 1, progress := false } := by
+  simp only [step] at h
+  split at h
+  · cases h
+  · rename_i hc
+    simp at hc
+    exact ⟨hc.1, hc.2, (Option.some.inj h).symm⟩
 
 /-! ### counting -/
 
@@ -488,7 +500,7 @@ theorem idsOK_step {c : Cfg} {s s' : St} {l : Label} (h : IdsOK s) (hs : step c 
     exact h
   | flush rs =>
     obtain ⟨_, _, _, rfl⟩ := step_flush hs
-    rw [flushAll_fresh s.wave rs s.batches s h.q_not_delivered h.q_nodup]
+    rw [flushAll_fresh s.wave s.execStart rs s.batches s h.q_not_delivered h.q_nodup]
     intro p
     have := h p
     have hc := count_flush rs s.batches p
@@ -522,6 +534,9 @@ theorem idsOK_step {c : Cfg} {s s' : St} {l : Label} (h : IdsOK s) (hs : step c 
     obtain ⟨r, _, _, _, hl, rfl⟩ := step_release hs
     exact idsOK_took h (lookup_some_mem hl)
 
+  | start =>
+    obtain ⟨_, _, rfl⟩ := step_start hs
+    exact h
 
 /-- States reachable from the initial state by any label sequence (= any interleaving). -/
 inductive Reachable (c : Cfg) : St → Prop
@@ -563,7 +578,7 @@ theorem inv1_step {c : Cfg} {s s' : St} {l : Label} (hi : IdsOK s) (h : Inv1 c s
     obtain ⟨_, hph, rfl, hps, rfl⟩ := step_chain hs
     refine ⟨h.destFull, ?_, ?_, ?_⟩
     · intro t ht; simp at ht; rcases ht with rfl | ht
-      · simpa using hps
+      · simpa using fun p hp => (hps p hp).2
       · exact h.waits t ht
     · intro hd; simp [hph] at hd
     · intro _ hr; simp [hph] at hr
@@ -579,7 +594,7 @@ theorem inv1_step {c : Cfg} {s s' : St} {l : Label} (hi : IdsOK s) (h : Inv1 c s
     · intro _ hr; simp at hr
   | flush rs =>
     obtain ⟨_, _, _, rfl⟩ := step_flush hs
-    rw [flushAll_fresh s.wave rs s.batches s hi.q_not_delivered hi.q_nodup]
+    rw [flushAll_fresh s.wave s.execStart rs s.batches s hi.q_not_delivered hi.q_nodup]
     refine ⟨h.destFull, h.waits, ?_, ?_⟩
     · intro _; rfl
     · intro _ hr; simp at hr
@@ -617,6 +632,11 @@ theorem inv1_step {c : Cfg} {s s' : St} {l : Label} (hi : IdsOK s) (h : Inv1 c s
     obtain ⟨r, _, _, hph, hl, rfl⟩ := step_release hs
     rw [took_eq hi (lookup_some_mem hl)]
     exact ⟨h.destFull, h.waits, h.progress, h.retBatches⟩
+  | start =>
+    obtain ⟨_, _, rfl⟩ := step_start hs
+    refine ⟨h.destFull, h.waits, ?_, ?_⟩
+    · intro hd; simp at hd
+    · intro _ hr; simp at hr
 
 theorem Reachable.inv1 {c : Cfg} {s : St} (h : Reachable c s) : Inv1 c s := by
   induction h with
@@ -628,7 +648,7 @@ theorem Reachable.inv1 {c : Cfg} {s : St} (h : Reachable c s) : Inv1 c s := by
 /-- While the idle handler is at the head of its loop, some promise the executor itself waits for
     (created, not chained) has no result yet. -/
 def InvTop (s : St) : Prop :=
-  s.phase = .top → ∃ w, w < s.next ∧ w ∉ dIds s ∧ w ∉ s.chained
+  s.phase = .top → ∃ w, s.execStart ≤ w ∧ w < s.next ∧ w ∉ dIds s ∧ w ∉ s.chained
 
 theorem invTop_step {c : Cfg} {s s' : St} {l : Label} (hi : IdsOK s) (h : InvTop s) (hs : step c s l = some s') : InvTop s' := by
   cases l with
@@ -645,9 +665,9 @@ theorem invTop_step {c : Cfg} {s s' : St} {l : Label} (hi : IdsOK s) (h : InvTop
     obtain ⟨task, e, _, hf, _, _, rfl⟩ := step_fin hs
     exact h
   | idle =>
-    obtain ⟨_, _, ⟨p, hp, hd, hc⟩, rfl⟩ := step_idle hs
+    obtain ⟨_, _, ⟨p, hlo, hp, hd, hc⟩, rfl⟩ := step_idle hs
     intro _
-    refine ⟨p, hp, ?_, ?_⟩
+    refine ⟨p, hlo, hp, ?_, ?_⟩
     · intro hm
       have := (isDelivered_iff s p).mpr hm
       simp [this] at hd
@@ -664,11 +684,11 @@ theorem invTop_step {c : Cfg} {s s' : St} {l : Label} (hi : IdsOK s) (h : InvTop
     split
     · rename_i hch
       intro _
-      obtain ⟨w, hw, hwd, hwc⟩ := h hph
+      obtain ⟨w, hlo, hw, hwd, hwc⟩ := h hph
       have hne : w ≠ t := by
         intro e; subst e
         exact hwc (by simpa using hch)
-      refine ⟨w, hw, ?_, ?_⟩
+      refine ⟨w, hlo, hw, ?_, ?_⟩
       · simp only [dIds, List.map_cons, List.mem_cons, not_or]
         exact ⟨hne, hwd⟩
       · intro hm
@@ -690,7 +710,18 @@ theorem invTop_step {c : Cfg} {s s' : St} {l : Label} (hi : IdsOK s) (h : InvTop
   | release t =>
     obtain ⟨r, _, _, hph, hl, rfl⟩ := step_release hs
     rw [took_eq hi (lookup_some_mem hl)]
-    intro hp; simp [hph] at hp
+    intro hp
+    have hp' : s.phase = .top := hp
+    rcases hph with hlt | hret
+    · -- a task of an earlier execution leaves through `done` while the handler waits
+      obtain ⟨w, hlo, hw, hwd, hwc⟩ := h hp'
+      refine ⟨w, hlo, hw, ?_, hwc⟩
+      simp only [dIds, List.map_cons, List.mem_cons, not_or]
+      exact ⟨by omega, hwd⟩
+    · rw [hret] at hp'; cases hp'
+  | start =>
+    obtain ⟨_, _, rfl⟩ := step_start hs
+    intro hp; simp at hp
 
 theorem Reachable.invTop {c : Cfg} {s : St} (h : Reachable c s) : InvTop s := by
   induction h with
@@ -778,10 +809,11 @@ theorem fin_enabled {c : Cfg} {s : St} (hi : IdsOK s) (h1 : Inv1 c s) (hc : s.cr
 /-! ### batches and calls -/
 
 /-- (item, promise) pairs registered with batch resolver `k`, in registration order. -/
-def regPairs (s : St) (k : Nat) : List (Nat × Nat) := (s.registered.filter (fun x => x.1 == k)).map (·.2)
+def regPairs (s : St) (k : Nat) : List (Nat × Nat) :=
+  (s.registered.filter (fun x => x.1 == k && decide (s.execStart ≤ x.2.2))).map (·.2)
 /-- (item, promise) pairs passed to batch resolver `k` so far, in call order and position order. -/
 def callPairs (s : St) (k : Nat) : List (Nat × Nat) :=
-  (s.calls.reverse.filter (fun c => c.key == k)).flatMap (fun c => c.items.zip c.dests)
+  (s.calls.reverse.filter (fun c => c.key == k && decide (s.execWave < c.wave))).flatMap (fun c => c.items.zip c.dests)
 def pendOf (bs : List Batch) (k : Nat) : List (Nat × Nat) :=
   (bs.filter (fun b => b.key == k)).flatMap (fun b => b.items.zip b.dests)
 /-- (item, promise) pairs of resolver `k` waiting in `batches`. -/
@@ -876,56 +908,41 @@ structure Inv2 (s : St) : Prop where
   callTop : s.phase = .top → ∀ c ∈ s.calls, c.wave < s.wave
   callNodup : (s.calls.map (fun c => (c.wave, c.key))).Nodup
   callLens : ∀ c ∈ s.calls, c.items.length = c.dests.length
-  once : s.phase ≠ .returned → ∀ k, regPairs s k = callPairs s k ++ pendPairs s k
 
 theorem inv2_init : Inv2 init := by
-  constructor <;> simp [init, regPairs, callPairs, pendPairs, pendOf]
+  constructor <;> simp [init]
 
 theorem inv2_frame {s s' : St} (h : Inv2 s) (hb : s'.batches = s.batches) (hc : s'.calls = s.calls)
-    (hr : s'.registered = s.registered) (hw : s'.wave = s.wave)
-    (hp : s'.phase = .top → s.phase = .top) (hret : s.phase = .returned → s'.phase = .returned) : Inv2 s' := by
+    (hw : s'.wave = s.wave)
+    (hp : s'.phase = .top → s.phase = .top) : Inv2 s' := by
   refine ⟨by rw [hb]; exact h.keysNodup, by rw [hb]; exact h.lens, by rw [hc, hw]; exact h.callWave, ?_,
-    by rw [hc]; exact h.callNodup, by rw [hc]; exact h.callLens, ?_⟩
-  · intro ht; rw [hc, hw]; exact h.callTop (hp ht)
-  · intro hne k
-    have : s.phase ≠ .returned := fun e => hne (hret e)
-    have := h.once this k
-    simpa [regPairs, callPairs, pendPairs, hb, hc, hr] using this
+    by rw [hc]; exact h.callNodup, by rw [hc]; exact h.callLens⟩
+  intro ht; rw [hc, hw]; exact h.callTop (hp ht)
 
 theorem inv2_step {c : Cfg} {s s' : St} {l : Label} (hi : IdsOK s) (h : Inv2 s) (hs : step c s l = some s') : Inv2 s' := by
   cases l with
   | go t dep =>
     obtain ⟨_, hph, rfl, rfl, _⟩ := step_go hs
-    exact inv2_frame h rfl rfl rfl rfl (by simp [hph]) (by simp [hph])
+    exact inv2_frame h rfl rfl rfl (by simp [hph])
   | batch k item p dep =>
     obtain ⟨_, hph, rfl, rfl, _⟩ := step_batch hs
-    refine ⟨addToBatch_keys_nodup _ _ _ _ h.keysNodup, addToBatch_lens _ _ _ _ h.lens, h.callWave, ?_, h.callNodup, h.callLens, ?_⟩
-    · intro ht; simp [hph] at ht
-    · intro _ k'
-      have := h.once (by simp [hph]) k'
-      simp only [regPairs, callPairs, pendPairs] at this ⊢
-      rw [addToBatch_pend _ _ _ _ _ h.keysNodup h.lens, ← List.append_assoc, ← this]
-      by_cases hk : k' = k
-      · subst hk; simp
-      · have : (k == k') = false := by simp; exact fun e => hk e.symm
-        simp [hk, this]
+    refine ⟨addToBatch_keys_nodup _ _ _ _ h.keysNodup, addToBatch_lens _ _ _ _ h.lens, h.callWave, ?_, h.callNodup, h.callLens⟩
+    intro ht; simp [hph] at ht
   | chain t ps =>
     obtain ⟨_, hph, rfl, hps, rfl⟩ := step_chain hs
-    exact inv2_frame h rfl rfl rfl rfl (by simp [hph]) (by simp [hph])
+    exact inv2_frame h rfl rfl rfl (by simp [hph])
   | fin t r =>
     obtain ⟨task, e, _, hf, _, _, rfl⟩ := step_fin hs
-    exact inv2_frame h rfl rfl rfl rfl (by simp) (by simp)
+    exact inv2_frame h rfl rfl rfl (by simp)
   | idle =>
     obtain ⟨_, hph, _, rfl⟩ := step_idle hs
-    refine ⟨h.keysNodup, h.lens, ?_, ?_, h.callNodup, h.callLens, ?_⟩
+    refine ⟨h.keysNodup, h.lens, ?_, ?_, h.callNodup, h.callLens⟩
     · intro c hc; have := h.callWave c hc; simp; omega
     · intro _ c hc; have := h.callWave c hc; simp; omega
-    · intro _ k
-      exact h.once (by simp [hph]) k
   | flush rs =>
     obtain ⟨_, hph, _, rfl⟩ := step_flush hs
-    rw [flushAll_fresh s.wave rs s.batches s hi.q_not_delivered hi.q_nodup]
-    refine ⟨by simp, by simp, ?_, by simp, ?_, ?_, ?_⟩
+    rw [flushAll_fresh s.wave s.execStart rs s.batches s hi.q_not_delivered hi.q_nodup]
+    refine ⟨by simp, by simp, ?_, by simp, ?_, ?_⟩
     · intro c hc
       simp at hc
       rcases hc with ⟨b, _, rfl⟩ | hc
@@ -935,7 +952,7 @@ theorem inv2_step {c : Cfg} {s s' : St} {l : Label} (hi : IdsOK s) (h : Inv2 s) 
       rw [List.nodup_append]
       refine ⟨?_, h.callNodup, ?_⟩
       · rw [(List.reverse_perm _).nodup_iff]
-        have : ((fun c : Call => (c.wave, c.key)) ∘ mkCall s.wave rs) = (fun b : Batch => (s.wave, b.key)) := by
+        have : ((fun c : Call => (c.wave, c.key)) ∘ mkCall s.wave s.execStart rs) = (fun b : Batch => (s.wave, b.key)) := by
           funext b; rfl
         rw [this]
         have hk := h.keysNodup
@@ -958,41 +975,32 @@ theorem inv2_step {c : Cfg} {s s' : St} {l : Label} (hi : IdsOK s) (h : Inv2 s) 
       rcases hc with ⟨b, hb, rfl⟩ | hc
       · simp [mkCall, h.lens b hb]
       · exact h.callLens c hc
-    · intro _ k
-      have := h.once (by simp [hph]) k
-      simp only [regPairs, callPairs, pendPairs, pendOf] at this ⊢
-      rw [this]
-      simp only [List.reverse_append, List.reverse_reverse, List.filter_append, List.flatMap_append, List.filter_nil,
-        List.flatMap_nil, List.append_nil]
-      congr 1
-      induction s.batches with
-      | nil => simp
-      | cons b bs ih =>
-        simp only [List.map_cons, List.filter_cons, mkCall]
-        split <;> simp [ih]
   | recvBlock t =>
     obtain ⟨r, _, _, hph, _, hl, rfl⟩ := step_recvBlock hs
     rw [took_eq hi (lookup_some_mem hl)]
     split
-    · exact inv2_frame h rfl rfl rfl rfl (by simp [hph]) (by simp [hph])
-    · exact inv2_frame h rfl rfl rfl rfl (by simp) (by simp [hph])
+    · exact inv2_frame h rfl rfl rfl (by simp [hph])
+    · exact inv2_frame h rfl rfl rfl (by simp)
   | drain t =>
     obtain ⟨r, _, _, hph, hl, rfl⟩ := step_drain hs
     rw [took_eq hi (lookup_some_mem hl)]
-    exact inv2_frame h rfl rfl rfl rfl (by simp [hph]) (by simp [hph])
+    exact inv2_frame h rfl rfl rfl (by simp [hph])
   | idleRet =>
     obtain ⟨_, _, hph, rfl⟩ := step_idleRet hs
-    exact inv2_frame h rfl rfl rfl rfl (by simp) (by simp [hph])
+    exact inv2_frame h rfl rfl rfl (by simp)
   | ret =>
     obtain ⟨_, hph, rfl⟩ := step_ret hs
     split
     · rw [finishBatches_eq hi]
-      refine ⟨by simp, by simp, h.callWave, by simp, h.callNodup, h.callLens, by simp⟩
-    · refine ⟨h.keysNodup, h.lens, h.callWave, by simp, h.callNodup, h.callLens, by simp⟩
+      refine ⟨by simp, by simp, h.callWave, by simp, h.callNodup, h.callLens⟩
+    · refine ⟨h.keysNodup, h.lens, h.callWave, by simp, h.callNodup, h.callLens⟩
   | release t =>
     obtain ⟨r, _, _, hph, hl, rfl⟩ := step_release hs
     rw [took_eq hi (lookup_some_mem hl)]
-    exact inv2_frame h rfl rfl rfl rfl (by simp [hph]) (by simp)
+    exact inv2_frame h rfl rfl rfl (by simp [hph])
+  | start =>
+    obtain ⟨_, _, rfl⟩ := step_start hs
+    exact ⟨h.keysNodup, h.lens, h.callWave, by simp, h.callNodup, h.callLens⟩
 
 theorem Reachable.inv2 {c : Cfg} {s : St} (h : Reachable c s) : Inv2 s := by
   induction h with
@@ -1016,20 +1024,29 @@ theorem mem_flushDel {rs : List (Nat × List Res)} {bs : List Batch} {x : Nat ×
       · exact Or.inr h
       · exact Or.inl h
 
+/-- Some execution on this apiRequest has returned (so `finish()` has run at least once). -/
+def returnedOnce (s : St) : Prop := s.phase = .returned ∨ 0 < s.exec
+
+theorem returnedOnce_mono {s s' : St} (he : s'.exec = s.exec) (hp : s.phase = .returned → s'.phase = .returned) :
+    returnedOnce s → returnedOnce s' := by
+  rintro (h | h)
+  · exact Or.inl (hp h)
+  · exact Or.inr (he ▸ h)
+
 /-- Where a delivered result can come from. -/
 structure Inv3 (c : Cfg) (s : St) : Prop where
   blockedFin : ∀ x ∈ s.blocked, x ∈ s.finished
   finKeys : ∀ x ∈ s.finished, x.1 ∈ bIds s ∨ x.1 ∈ dIds s
   finNodup : (s.finished.map (·.1)).Nodup
   deliveredOK : ∀ x ∈ s.delivered, x ∈ s.finished ∨ (∃ cl ∈ s.calls, x ∈ cl.dests.zip cl.results) ∨
-    (c.fixed = true ∧ s.phase = .returned ∧ x.2 = errFinished)
+    (c.fixed = true ∧ returnedOnce s ∧ x.2 = errFinished)
   callsDelivered : ∀ cl ∈ s.calls, ∀ x ∈ cl.dests.zip cl.results, x ∈ s.delivered
 
 theorem inv3_init (c : Cfg) : Inv3 c init := by
   constructor <;> simp [init]
 
 theorem inv3_frame {c : Cfg} {s s' : St} (h : Inv3 c s) (hb : s'.blocked = s.blocked) (hd : s'.delivered = s.delivered)
-    (hc : s'.calls = s.calls) (hf : s'.finished = s.finished) (hret : s.phase = .returned → s'.phase = .returned) : Inv3 c s' := by
+    (hc : s'.calls = s.calls) (hf : s'.finished = s.finished) (hret : returnedOnce s → returnedOnce s') : Inv3 c s' := by
   refine ⟨by rw [hb, hf]; exact h.blockedFin, ?_, by rw [hf]; exact h.finNodup, ?_, by rw [hc, hd]; exact h.callsDelivered⟩
   · intro x hx; rw [hf] at hx
     have := h.finKeys x hx
@@ -1067,13 +1084,13 @@ theorem inv3_step {c : Cfg} {s s' : St} {l : Label} (hi : IdsOK s) (h : Inv3 c s
   cases l with
   | go t dep =>
     obtain ⟨_, hph, rfl, rfl, _⟩ := step_go hs
-    exact inv3_frame h rfl rfl rfl rfl (by simp [hph])
+    exact inv3_frame h rfl rfl rfl rfl (returnedOnce_mono rfl (by simp [hph]))
   | batch k item p dep =>
     obtain ⟨_, hph, rfl, rfl, _⟩ := step_batch hs
-    exact inv3_frame h rfl rfl rfl rfl (by simp [hph])
+    exact inv3_frame h rfl rfl rfl rfl (returnedOnce_mono rfl (by simp [hph]))
   | chain t ps =>
     obtain ⟨_, hph, rfl, hps, rfl⟩ := step_chain hs
-    exact inv3_frame h rfl rfl rfl rfl (by simp [hph])
+    exact inv3_frame h rfl rfl rfl rfl (returnedOnce_mono rfl (by simp [hph]))
   | fin t r =>
     obtain ⟨task, e, _, hf, _, _, rfl⟩ := step_fin hs
     obtain ⟨hm, hid⟩ := find_task hf
@@ -1110,10 +1127,10 @@ theorem inv3_step {c : Cfg} {s s' : St} {l : Label} (hi : IdsOK s) (h : Inv3 c s
       · exact Or.inr (Or.inr h1)
   | idle =>
     obtain ⟨_, hph, _, rfl⟩ := step_idle hs
-    exact inv3_frame h rfl rfl rfl rfl (by simp [hph])
+    exact inv3_frame h rfl rfl rfl rfl (returnedOnce_mono rfl (by simp [hph]))
   | flush rs =>
     obtain ⟨_, hph, _, rfl⟩ := step_flush hs
-    rw [flushAll_fresh s.wave rs s.batches s hi.q_not_delivered hi.q_nodup]
+    rw [flushAll_fresh s.wave s.execStart rs s.batches s hi.q_not_delivered hi.q_nodup]
     refine ⟨h.blockedFin, ?_, h.finNodup, ?_, ?_⟩
     · intro x hx
       rcases h.finKeys x hx with h1 | h1
@@ -1124,13 +1141,13 @@ theorem inv3_step {c : Cfg} {s s' : St} {l : Label} (hi : IdsOK s) (h : Inv3 c s
       rcases hx with hx | hx
       · obtain ⟨b, hb, hxb⟩ := mem_flushDel.mp hx
         right; left
-        refine ⟨mkCall s.wave rs b, ?_, hxb⟩
+        refine ⟨mkCall s.wave s.execStart rs b, ?_, hxb⟩
         simp only [List.mem_append, List.mem_reverse, List.mem_map]
         exact Or.inl ⟨b, hb, rfl⟩
       · rcases h.deliveredOK x hx with h1 | ⟨cl, hcl, h1⟩ | ⟨h1, h2, _⟩
         · exact Or.inl h1
         · exact Or.inr (Or.inl ⟨cl, by simp only [List.mem_append]; exact Or.inr hcl, h1⟩)
-        · rw [hph] at h2; cases h2
+        · exact Or.inr (Or.inr ⟨h1, h2.elim (fun e => by rw [hph] at e; cases e) Or.inr, ‹_›⟩)
     · intro cl hcl x hx
       simp only [List.mem_append, List.mem_reverse, List.mem_map] at hcl ⊢
       rcases hcl with ⟨b, hb, rfl⟩ | hcl
@@ -1141,14 +1158,14 @@ theorem inv3_step {c : Cfg} {s s' : St} {l : Label} (hi : IdsOK s) (h : Inv3 c s
     have := inv3_took hi h (lookup_some_mem hl)
     have hph' : (took s t r).phase = .top := by rw [took_eq hi (lookup_some_mem hl)]; exact hph
     split
-    · exact inv3_frame this rfl rfl rfl rfl (by simp [hph'])
-    · exact inv3_frame this rfl rfl rfl rfl (by simp [hph'])
+    · exact inv3_frame this rfl rfl rfl rfl (returnedOnce_mono rfl (by simp [hph']))
+    · exact inv3_frame this rfl rfl rfl rfl (returnedOnce_mono rfl (by simp [hph']))
   | drain t =>
     obtain ⟨r, _, _, hph, hl, rfl⟩ := step_drain hs
     exact inv3_took hi h (lookup_some_mem hl)
   | idleRet =>
     obtain ⟨_, _, hph, rfl⟩ := step_idleRet hs
-    exact inv3_frame h rfl rfl rfl rfl (by simp [hph])
+    exact inv3_frame h rfl rfl rfl rfl (returnedOnce_mono rfl (by simp [hph]))
   | ret =>
     obtain ⟨_, hph, rfl⟩ := step_ret hs
     split
@@ -1162,18 +1179,21 @@ theorem inv3_step {c : Cfg} {s s' : St} {l : Label} (hi : IdsOK s) (h : Inv3 c s
       · intro x hx
         simp only [List.mem_append, List.mem_reverse, List.mem_map] at hx
         rcases hx with ⟨p, _, rfl⟩ | hx
-        · exact Or.inr (Or.inr ⟨hfx, rfl, rfl⟩)
+        · exact Or.inr (Or.inr ⟨hfx, Or.inl rfl, rfl⟩)
         · rcases h.deliveredOK x hx with h1 | h1 | ⟨h1, h2, _⟩
           · exact Or.inl h1
           · exact Or.inr (Or.inl h1)
-          · rw [hph] at h2; cases h2
+          · exact Or.inr (Or.inr ⟨h1, h2.elim (fun e => by rw [hph] at e; cases e) Or.inr, ‹_›⟩)
       · intro cl hcl x hx
         simp only [List.mem_append]
         exact Or.inr (h.callsDelivered cl hcl x hx)
-    · exact inv3_frame h rfl rfl rfl rfl (by simp)
+    · exact inv3_frame h rfl rfl rfl rfl (returnedOnce_mono rfl (by simp))
   | release t =>
     obtain ⟨r, _, _, hph, hl, rfl⟩ := step_release hs
     exact inv3_took hi h (lookup_some_mem hl)
+  | start =>
+    obtain ⟨_, _, rfl⟩ := step_start hs
+    exact inv3_frame h rfl rfl rfl rfl (fun _ => Or.inr (Nat.succ_pos _))
 
 theorem Reachable.inv3 {c : Cfg} {s : St} (h : Reachable c s) : Inv3 c s := by
   induction h with
@@ -1229,7 +1249,7 @@ theorem measure_step {c : Cfg} {s s' : St} {l : Label} (hi : IdsOK s) (hs : step
     omega
   | flush rs =>
     obtain ⟨_, _, hne, rfl⟩ := step_flush hs
-    rw [flushAll_fresh s.wave rs s.batches s hi.q_not_delivered hi.q_nodup]
+    rw [flushAll_fresh s.wave s.execStart rs s.batches s hi.q_not_delivered hi.q_nodup]
     have : 0 < s.batches.length := List.length_pos_iff.mpr hne
     simp only [measure, List.length_nil]
     omega
@@ -1339,7 +1359,7 @@ structure Inv4 (s : St) : Prop where
   drainEmpty : s.phase = .drain → s.batches = []
   callTag : ∀ cl ∈ s.calls, 1 ≤ cl.wave ∧ ∀ p ∈ cl.dests, (p, cl.key, cl.wave - 1) ∈ s.regWave
   waveTop : s.phase = .top → 1 ≤ s.wave
-  covered : s.phase ≠ .returned → ∀ x ∈ s.regWave, x.1 ∈ qIds s ∨ ∃ cl ∈ s.calls, x.1 ∈ cl.dests
+  covered : s.phase ≠ .returned → ∀ x ∈ s.regWave, s.execStart ≤ x.1 → x.1 ∈ qIds s ∨ ∃ cl ∈ s.calls, x.1 ∈ cl.dests
 
 theorem inv4_init : Inv4 init := by
   constructor <;> simp [init]
@@ -1347,7 +1367,7 @@ theorem inv4_init : Inv4 init := by
 theorem inv4_frame {s s' : St} (h : Inv4 s) (hn : s.next ≤ s'.next) (hr : s'.regWave = s.regWave)
     (hb : s'.batches = s.batches) (hc : s'.calls = s.calls) (hw : s'.wave = s.wave)
     (hp : s'.phase = s.phase ∨ (s.batches = [] ∧ s'.phase ≠ .top) ∨ (s.phase ≠ .top ∧ s'.phase ≠ .top ∧ s'.phase ≠ .drain))
-    (hret : s.phase = .returned → s'.phase = .returned) : Inv4 s' := by
+    (hret : s.phase = .returned → s'.phase = .returned) (hes : s'.execStart = s.execStart) : Inv4 s' := by
   have hq : qIds s' = qIds s := by simp [qIds, hb]
   refine ⟨?_, by rw [hr]; exact h.rwNodup, ?_, ?_, by rw [hc, hr]; exact h.callTag, ?_, ?_⟩
   · intro x hx; rw [hr] at hx; exact Nat.lt_of_lt_of_le (h.rwLt x hx) hn
@@ -1374,17 +1394,17 @@ theorem inv4_frame {s s' : St} (h : Inv4 s) (hn : s.next ≤ s'.next) (hr : s'.r
   · intro hne x hx
     rw [hr] at hx
     have : s.phase ≠ .returned := fun e => hne (hret e)
-    rw [hq, hc]
+    rw [hq, hc, hes]
     exact h.covered this x hx
 
 theorem inv4_step {c : Cfg} {s s' : St} {l : Label} (hi : IdsOK s) (h : Inv4 s) (hs : step c s l = some s') : Inv4 s' := by
   cases l with
   | go t dep =>
     obtain ⟨_, hph, rfl, rfl, _⟩ := step_go hs
-    exact inv4_frame h (Nat.le_succ _) rfl rfl rfl rfl (Or.inl rfl) (fun e => e)
+    exact inv4_frame h (Nat.le_succ _) rfl rfl rfl rfl (Or.inl rfl) (fun e => e) rfl
   | chain t ps =>
     obtain ⟨_, hph, rfl, _, rfl⟩ := step_chain hs
-    exact inv4_frame h (Nat.le_succ _) rfl rfl rfl rfl (Or.inl rfl) (fun e => e)
+    exact inv4_frame h (Nat.le_succ _) rfl rfl rfl rfl (Or.inl rfl) (fun e => e) rfl
   | batch k item p dep =>
     obtain ⟨_, hph, rfl, rfl, _⟩ := step_batch hs
     have htag : pendTag s = s.wave := by simp [pendTag, hph]
@@ -1416,7 +1436,7 @@ theorem inv4_step {c : Cfg} {s s' : St} {l : Label} (hi : IdsOK s) (h : Inv4 s) 
       obtain ⟨h1, h2⟩ := h.callTag cl hcl
       exact ⟨h1, fun p hp => by simp only [List.mem_cons]; exact Or.inr (h2 p hp)⟩
     · intro ht; simp [hph] at ht
-    · intro _ x hx
+    · intro _ x hx hlo
       have hmem : ∀ q, q ∈ qIds s → q ∈ (addToBatch s.batches k item s.next).flatMap (·.dests) := by
         intro q hq
         apply List.count_pos_iff.mp
@@ -1431,23 +1451,23 @@ theorem inv4_step {c : Cfg} {s s' : St} {l : Label} (hi : IdsOK s) (h : Inv4 s) 
         apply List.count_pos_iff.mp
         rw [count_qIds_addToBatch]
         simp
-      · rcases h.covered (by simp [hph]) x hx with h1 | h1
+      · rcases h.covered (by simp [hph]) x hx hlo with h1 | h1
         · exact Or.inl (hmem _ h1)
         · exact Or.inr h1
   | fin t r =>
     obtain ⟨_, _, _, _, _, _, rfl⟩ := step_fin hs
-    exact inv4_frame h (Nat.le_refl _) rfl rfl rfl rfl (Or.inl rfl) (fun e => e)
+    exact inv4_frame h (Nat.le_refl _) rfl rfl rfl rfl (Or.inl rfl) (fun e => e) rfl
   | idle =>
     obtain ⟨_, hph, _, rfl⟩ := step_idle hs
     refine ⟨h.rwLt, h.rwNodup, ?_, by simp, h.callTag, by simp, ?_⟩
     · intro b hb p hp
       have := h.pend b hb p hp
       simpa [pendTag, hph] using this
-    · intro _ x hx
-      exact h.covered (by simp [hph]) x hx
+    · intro _ x hx hlo
+      exact h.covered (by simp [hph]) x hx hlo
   | flush rs =>
     obtain ⟨_, hph, _, rfl⟩ := step_flush hs
-    rw [flushAll_fresh s.wave rs s.batches s hi.q_not_delivered hi.q_nodup]
+    rw [flushAll_fresh s.wave s.execStart rs s.batches s hi.q_not_delivered hi.q_nodup]
     have hw := h.waveTop hph
     refine ⟨h.rwLt, h.rwNodup, by simp, by simp, ?_, by simp, ?_⟩
     · intro cl hcl
@@ -1458,12 +1478,12 @@ theorem inv4_step {c : Cfg} {s s' : St} {l : Label} (hi : IdsOK s) (h : Inv4 s) 
         have := h.pend b hb p hp
         simpa [pendTag, hph, mkCall] using this
       · exact h.callTag cl hcl
-    · intro _ x hx
-      rcases h.covered (by simp [hph]) x hx with h1 | ⟨cl, hcl, h1⟩
+    · intro _ x hx hlo
+      rcases h.covered (by simp [hph]) x hx hlo with h1 | ⟨cl, hcl, h1⟩
       · right
         simp only [qIds, List.mem_flatMap] at h1
         obtain ⟨b, hb, hxb⟩ := h1
-        refine ⟨mkCall s.wave rs b, ?_, hxb⟩
+        refine ⟨mkCall s.wave s.execStart rs b, ?_, hxb⟩
         simp only [List.mem_append, List.mem_reverse, List.mem_map]
         exact Or.inl ⟨b, hb, rfl⟩
       · right
@@ -1472,30 +1492,595 @@ theorem inv4_step {c : Cfg} {s s' : St} {l : Label} (hi : IdsOK s) (h : Inv4 s) 
     obtain ⟨r, _, _, hph, hb, hl, rfl⟩ := step_recvBlock hs
     rw [took_eq hi (lookup_some_mem hl)]
     split
-    · exact inv4_frame h (Nat.le_refl _) rfl rfl rfl rfl (Or.inl (by simp)) (by simp [hph])
-    · exact inv4_frame h (Nat.le_refl _) rfl rfl rfl rfl (Or.inr (Or.inl ⟨hb, by simp⟩)) (by simp [hph])
+    · exact inv4_frame h (Nat.le_refl _) rfl rfl rfl rfl (Or.inl (by simp)) (by simp [hph]) rfl
+    · exact inv4_frame h (Nat.le_refl _) rfl rfl rfl rfl (Or.inr (Or.inl ⟨hb, by simp⟩)) (by simp [hph]) rfl
   | drain t =>
     obtain ⟨r, _, _, hph, hl, rfl⟩ := step_drain hs
     rw [took_eq hi (lookup_some_mem hl)]
-    exact inv4_frame h (Nat.le_refl _) rfl rfl rfl rfl (Or.inl rfl) (fun e => e)
+    exact inv4_frame h (Nat.le_refl _) rfl rfl rfl rfl (Or.inl rfl) (fun e => e) rfl
   | idleRet =>
     obtain ⟨_, _, hph, rfl⟩ := step_idleRet hs
-    exact inv4_frame h (Nat.le_refl _) rfl rfl rfl rfl (Or.inr (Or.inl ⟨h.drainEmpty hph, by simp⟩)) (by simp [hph])
+    exact inv4_frame h (Nat.le_refl _) rfl rfl rfl rfl (Or.inr (Or.inl ⟨h.drainEmpty hph, by simp⟩)) (by simp [hph]) rfl
   | ret =>
     obtain ⟨_, hph, rfl⟩ := step_ret hs
     split
     · rw [finishBatches_eq hi]
       refine ⟨h.rwLt, h.rwNodup, by simp, by simp, h.callTag, by simp, by simp⟩
-    · exact inv4_frame h (Nat.le_refl _) rfl rfl rfl rfl (Or.inr (Or.inr ⟨by simp [hph], by simp, by simp⟩)) (by simp)
+    · exact inv4_frame h (Nat.le_refl _) rfl rfl rfl rfl (Or.inr (Or.inr ⟨by simp [hph], by simp, by simp⟩)) (by simp) rfl
   | release t =>
     obtain ⟨r, _, _, hph, hl, rfl⟩ := step_release hs
     rw [took_eq hi (lookup_some_mem hl)]
-    exact inv4_frame h (Nat.le_refl _) rfl rfl rfl rfl (Or.inl rfl) (fun e => e)
+    exact inv4_frame h (Nat.le_refl _) rfl rfl rfl rfl (Or.inl rfl) (fun e => e) rfl
+  | start =>
+    obtain ⟨_, hph, rfl⟩ := step_start hs
+    refine ⟨h.rwLt, h.rwNodup, ?_, by simp, h.callTag, by simp, ?_⟩
+    · intro b hb p hp
+      have := h.pend b hb p hp
+      simpa [pendTag, hph] using this
+    · intro _ x hx hlo
+      have := h.rwLt x hx
+      simp at hlo
+      omega
 
 theorem Reachable.inv4 {c : Cfg} {s : St} (h : Reachable c s) : Inv4 s := by
   induction h with
   | init => exact inv4_init
   | step hr hs ih => exact inv4_step hr.idsOK ih hs
 
+
+/-! ### several executions on one apiRequest -/
+
+/-- Per-execution accounting of batch registrations. -/
+structure Inv2x (c : Cfg) (s : St) : Prop where
+  regLt : ∀ x ∈ s.registered, x.2.2 < s.next
+  loLe : s.execStart ≤ s.next
+  ewLe : s.execWave ≤ s.wave
+  ewTop : s.phase = .top → s.execWave < s.wave
+  once : (c.fixed = true ∨ s.exec = 0) → s.phase ≠ .returned → ∀ k, regPairs s k = callPairs s k ++ pendPairs s k
+
+theorem inv2x_init (c : Cfg) : Inv2x c init := by
+  constructor <;> simp [init, regPairs, callPairs, pendPairs, pendOf]
+
+theorem inv2x_frame {c : Cfg} {s s' : St} (h : Inv2x c s) (hn : s.next ≤ s'.next) (hb : s'.batches = s.batches)
+    (hc : s'.calls = s.calls) (hr : s'.registered = s.registered) (hw : s'.wave = s.wave)
+    (hes : s'.execStart = s.execStart) (hew : s'.execWave = s.execWave) (hex : s'.exec = s.exec)
+    (hp : s'.phase = .top → s.phase = .top) (hret : s.phase = .returned → s'.phase = .returned) : Inv2x c s' := by
+  refine ⟨?_, by rw [hes]; exact Nat.le_trans h.loLe hn, by rw [hew, hw]; exact h.ewLe, ?_, ?_⟩
+  · intro x hx; rw [hr] at hx; exact Nat.lt_of_lt_of_le (h.regLt x hx) hn
+  · intro ht; rw [hew, hw]; exact h.ewTop (hp ht)
+  · intro hf hne k
+    have := h.once (by rw [hex] at hf; exact hf) (fun e => hne (hret e)) k
+    simpa [regPairs, callPairs, pendPairs, hb, hc, hr, hes, hew] using this
+
+theorem inv2x_step {c : Cfg} {s s' : St} {l : Label} (hi : IdsOK s) (h1 : Inv1 c s) (h2 : Inv2 s) (h : Inv2x c s)
+    (hs : step c s l = some s') : Inv2x c s' := by
+  cases l with
+  | go t dep =>
+    obtain ⟨_, hph, rfl, rfl, _⟩ := step_go hs
+    exact inv2x_frame h (Nat.le_succ _) rfl rfl rfl rfl rfl rfl rfl (by simp [hph]) (by simp [hph])
+  | chain t ps =>
+    obtain ⟨_, hph, rfl, _, rfl⟩ := step_chain hs
+    exact inv2x_frame h (Nat.le_succ _) rfl rfl rfl rfl rfl rfl rfl (by simp [hph]) (by simp [hph])
+  | batch k item p dep =>
+    obtain ⟨_, hph, rfl, rfl, _⟩ := step_batch hs
+    refine ⟨?_, Nat.le_succ_of_le h.loLe, h.ewLe, by simp [hph], ?_⟩
+    · intro x hx
+      simp only [List.mem_append, List.mem_singleton] at hx
+      rcases hx with hx | rfl
+      · exact Nat.lt_succ_of_lt (h.regLt x hx)
+      · exact Nat.lt_succ_self _
+    · intro hf _ k'
+      have := h.once hf (by simp [hph]) k'
+      have hlo : decide (s.execStart ≤ s.next) = true := by simpa using h.loLe
+      simp only [regPairs, callPairs, pendPairs] at this ⊢
+      rw [addToBatch_pend _ _ _ _ _ h2.keysNodup h2.lens, ← List.append_assoc, ← this]
+      by_cases hk : k' = k
+      · subst hk; simp [hlo]
+      · have : (k == k') = false := by simp; exact fun e => hk e.symm
+        simp [hk, this]
+  | fin t r =>
+    obtain ⟨_, _, _, _, _, _, rfl⟩ := step_fin hs
+    exact inv2x_frame h (Nat.le_refl _) rfl rfl rfl rfl rfl rfl rfl (fun e => e) (fun e => e)
+  | idle =>
+    obtain ⟨_, hph, _, rfl⟩ := step_idle hs
+    refine ⟨h.regLt, h.loLe, ?_, ?_, ?_⟩
+    · have := h.ewLe; simp; omega
+    · intro _; have := h.ewLe; simp; omega
+    · intro hf _ k
+      exact h.once hf (by simp [hph]) k
+  | flush rs =>
+    obtain ⟨_, hph, _, rfl⟩ := step_flush hs
+    rw [flushAll_fresh s.wave s.execStart rs s.batches s hi.q_not_delivered hi.q_nodup]
+    refine ⟨h.regLt, h.loLe, h.ewLe, by simp, ?_⟩
+    intro hf _ k
+    have := h.once hf (by simp [hph]) k
+    have hw : decide (s.execWave < s.wave) = true := by simpa using h.ewTop hph
+    simp only [regPairs, callPairs, pendPairs, pendOf] at this ⊢
+    rw [this]
+    simp only [List.reverse_append, List.reverse_reverse, List.filter_append, List.flatMap_append, List.filter_nil,
+      List.flatMap_nil, List.append_nil]
+    congr 1
+    induction s.batches with
+    | nil => simp
+    | cons b bs ih =>
+      simp only [List.map_cons, List.filter_cons, mkCall, hw, Bool.and_true]
+      split <;> simp [ih]
+  | recvBlock t =>
+    obtain ⟨r, _, _, hph, _, hl, rfl⟩ := step_recvBlock hs
+    rw [took_eq hi (lookup_some_mem hl)]
+    split
+    · exact inv2x_frame h (Nat.le_refl _) rfl rfl rfl rfl rfl rfl rfl (by simp [hph]) (by simp [hph])
+    · exact inv2x_frame h (Nat.le_refl _) rfl rfl rfl rfl rfl rfl rfl (by simp) (by simp [hph])
+  | drain t =>
+    obtain ⟨r, _, _, hph, hl, rfl⟩ := step_drain hs
+    rw [took_eq hi (lookup_some_mem hl)]
+    exact inv2x_frame h (Nat.le_refl _) rfl rfl rfl rfl rfl rfl rfl (fun e => e) (fun e => e)
+  | idleRet =>
+    obtain ⟨_, _, hph, rfl⟩ := step_idleRet hs
+    exact inv2x_frame h (Nat.le_refl _) rfl rfl rfl rfl rfl rfl rfl (by simp) (by simp [hph])
+  | ret =>
+    obtain ⟨_, hph, rfl⟩ := step_ret hs
+    split
+    · rw [finishBatches_eq hi]
+      exact ⟨h.regLt, h.loLe, h.ewLe, by simp, by simp⟩
+    · exact ⟨h.regLt, h.loLe, h.ewLe, by simp, by simp⟩
+  | release t =>
+    obtain ⟨r, _, _, _, hl, rfl⟩ := step_release hs
+    rw [took_eq hi (lookup_some_mem hl)]
+    exact inv2x_frame h (Nat.le_refl _) rfl rfl rfl rfl rfl rfl rfl (fun e => e) (fun e => e)
+  | start =>
+    obtain ⟨_, hph, rfl⟩ := step_start hs
+    refine ⟨h.regLt, Nat.le_refl _, Nat.le_refl _, by simp, ?_⟩
+    intro hf _ k
+    have hfx : c.fixed = true := by
+      rcases hf with hf | hf
+      · exact hf
+      · simp at hf
+    have hb : s.batches = [] := h1.retBatches hfx hph
+    have hreg : s.registered.filter (fun x => x.1 == k && decide (s.next ≤ x.2.2)) = [] := by
+      apply List.filter_eq_nil_iff.mpr
+      intro x hx
+      have := h.regLt x hx
+      simp; intro _; omega
+    have hcall : s.calls.reverse.filter (fun cl => cl.key == k && decide (s.wave < cl.wave)) = [] := by
+      apply List.filter_eq_nil_iff.mpr
+      intro x hx
+      have := h2.callWave x (List.mem_reverse.mp hx)
+      simp; intro _; omega
+    simp [regPairs, callPairs, pendPairs, pendOf, hb, hreg, hcall]
+
+
+/-- What belongs to which execution. -/
+structure Inv5 (c : Cfg) (s : St) : Prop where
+  pendCur : c.fixed = true → ∀ b ∈ s.batches, ∀ p ∈ b.dests, s.execStart ≤ p
+  callLo : c.fixed = true → ∀ cl ∈ s.calls, ∀ p ∈ cl.dests, cl.lo ≤ p
+  callOld : ∀ cl ∈ s.calls, cl.wave ≤ s.execWave → ∀ p ∈ cl.dests, p < s.execStart
+  callNew : ∀ cl ∈ s.calls, s.execWave < cl.wave → cl.lo = s.execStart
+
+theorem inv5_init (c : Cfg) : Inv5 c init := by
+  constructor <;> simp [init]
+
+theorem inv5_frame {c : Cfg} {s s' : St} (h : Inv5 c s) (hb : s'.batches = s.batches) (hc : s'.calls = s.calls)
+    (hes : s'.execStart = s.execStart) (hew : s'.execWave = s.execWave) : Inv5 c s' := by
+  refine ⟨?_, ?_, ?_, ?_⟩
+  · rw [hb, hes]; exact h.pendCur
+  · rw [hc]; exact h.callLo
+  · rw [hc, hes, hew]; exact h.callOld
+  · rw [hc, hes, hew]; exact h.callNew
+
+theorem inv5_step {c : Cfg} {s s' : St} {l : Label} (hi : IdsOK s) (h1 : Inv1 c s) (h2 : Inv2 s) (h2x : Inv2x c s)
+    (h4 : Inv4 s) (h : Inv5 c s) (hs : step c s l = some s') : Inv5 c s' := by
+  cases l with
+  | go t dep => obtain ⟨_, _, rfl, rfl, _⟩ := step_go hs; exact inv5_frame h rfl rfl rfl rfl
+  | chain t ps => obtain ⟨_, _, rfl, _, rfl⟩ := step_chain hs; exact inv5_frame h rfl rfl rfl rfl
+  | batch k item p dep =>
+    obtain ⟨_, _, rfl, rfl, _⟩ := step_batch hs
+    refine ⟨?_, h.callLo, h.callOld, h.callNew⟩
+    intro hf b hb q hq
+    rcases addToBatch_dests s.batches k item s.next b hb q hq with ⟨rfl, _⟩ | ⟨b0, hb0, _, hq0⟩
+    · exact h2x.loLe
+    · exact h.pendCur hf b0 hb0 q hq0
+  | fin t r => obtain ⟨_, _, _, _, _, _, rfl⟩ := step_fin hs; exact inv5_frame h rfl rfl rfl rfl
+  | idle => obtain ⟨_, _, _, rfl⟩ := step_idle hs; exact inv5_frame h rfl rfl rfl rfl
+  | flush rs =>
+    obtain ⟨_, hph, _, rfl⟩ := step_flush hs
+    rw [flushAll_fresh s.wave s.execStart rs s.batches s hi.q_not_delivered hi.q_nodup]
+    have hw := h2x.ewTop hph
+    refine ⟨by simp, ?_, ?_, ?_⟩
+    · intro hf cl hcl p hp
+      simp only [List.mem_append, List.mem_reverse, List.mem_map] at hcl
+      rcases hcl with ⟨b, hb, rfl⟩ | hcl
+      · exact h.pendCur hf b hb p hp
+      · exact h.callLo hf cl hcl p hp
+    · intro cl hcl hle p hp
+      simp only [List.mem_append, List.mem_reverse, List.mem_map] at hcl
+      rcases hcl with ⟨b, hb, rfl⟩ | hcl
+      · simp [mkCall] at hle; omega
+      · exact h.callOld cl hcl hle p hp
+    · intro cl hcl hlt
+      simp only [List.mem_append, List.mem_reverse, List.mem_map] at hcl
+      rcases hcl with ⟨b, hb, rfl⟩ | hcl
+      · rfl
+      · exact h.callNew cl hcl hlt
+  | recvBlock t =>
+    obtain ⟨r, _, _, _, _, hl, rfl⟩ := step_recvBlock hs
+    rw [took_eq hi (lookup_some_mem hl)]
+    split <;> exact inv5_frame h rfl rfl rfl rfl
+  | drain t =>
+    obtain ⟨r, _, _, _, hl, rfl⟩ := step_drain hs
+    rw [took_eq hi (lookup_some_mem hl)]; exact inv5_frame h rfl rfl rfl rfl
+  | idleRet => obtain ⟨_, _, _, rfl⟩ := step_idleRet hs; exact inv5_frame h rfl rfl rfl rfl
+  | ret =>
+    obtain ⟨_, _, rfl⟩ := step_ret hs
+    split
+    · rw [finishBatches_eq hi]
+      exact ⟨by simp, h.callLo, h.callOld, h.callNew⟩
+    · exact inv5_frame h rfl rfl rfl rfl
+  | release t =>
+    obtain ⟨r, _, _, _, hl, rfl⟩ := step_release hs
+    rw [took_eq hi (lookup_some_mem hl)]; exact inv5_frame h rfl rfl rfl rfl
+  | start =>
+    obtain ⟨_, hph, rfl⟩ := step_start hs
+    refine ⟨?_, h.callLo, ?_, ?_⟩
+    · intro hf b hb
+      rw [h1.retBatches hf hph] at hb; cases hb
+    · intro cl hcl _ p hp
+      exact h4.rwLt _ ((h4.callTag cl hcl).2 p hp)
+    · intro cl hcl hlt
+      have := h2.callWave cl hcl
+      simp at hlt; omega
+
+
+theorem Reachable.inv2x {c : Cfg} {s : St} (h : Reachable c s) : Inv2x c s := by
+  induction h with
+  | init => exact inv2x_init c
+  | step hr hs ih => exact inv2x_step hr.idsOK hr.inv1 hr.inv2 ih hs
+
+theorem Reachable.inv5 {c : Cfg} {s : St} (h : Reachable c s) : Inv5 c s := by
+  induction h with
+  | init => exact inv5_init c
+  | step hr hs ih => exact inv5_step hr.idsOK hr.inv1 hr.inv2 hr.inv2x hr.inv4 ih hs
+
+
+/-- If everything on offer and everything queued in a batch has an id ≥ `lo`, no promise is orphaned
+    and some running task has an id below `lo`, then the running task with the smallest id (it is
+    below `lo` too) has received all its inputs: its body can return. -/
+theorem fin_enabled_below {c : Cfg} {s : St} (lo : Nat) (hi : IdsOK s) (h1 : Inv1 c s) (hc : s.crashed = false)
+    (hb : ∀ x ∈ s.blocked, lo ≤ x.1) (hq : ∀ p ∈ qIds s, lo ≤ p) (ho : s.orphaned = [])
+    (hr : ∃ t ∈ s.running, t.id < lo) :
+    ∃ t r s', t < lo ∧ step c s (.fin t r) = some s' := by
+  obtain ⟨t1, ht1, hlt1⟩ := hr
+  have hne : s.running ≠ [] := fun e => by rw [e] at ht1; cases ht1
+  obtain ⟨t, ht, hmin⟩ := exists_min_task s.running hne
+  have htlo : t.id < lo := Nat.lt_of_le_of_lt (hmin t1 ht1) hlt1
+  have hsome : (s.running.find? (fun x => x.id == t.id)).isSome := by
+    rw [List.find?_isSome]; exact ⟨t, ht, by simp⟩
+  obtain ⟨task, hf⟩ := Option.isSome_iff_exists.mp hsome
+  obtain ⟨hmem, hid⟩ := find_task hf
+  have hall : ∀ p ∈ task.waits, p ∈ s.delivered.map (·.1) := by
+    intro p hp
+    have hlt : p < task.id := h1.waits task hmem p hp
+    have htn : task.id < s.next := by
+      apply hi.lt_of_pos
+      have : 0 < (rIds s).count task.id := List.count_pos_iff.mpr (List.mem_map_of_mem (f := (·.id)) hmem)
+      unfold cnt; omega
+    have hcnt := hi p
+    rw [if_pos (by omega)] at hcnt
+    unfold cnt at hcnt
+    have hr0 : (rIds s).count p = 0 := by
+      apply List.count_eq_zero.mpr
+      intro hm
+      simp only [rIds, List.mem_map] at hm
+      obtain ⟨u, hu, rfl⟩ := hm
+      have := hmin u hu
+      omega
+    have hb0 : (bIds s).count p = 0 := by
+      apply List.count_eq_zero.mpr
+      intro hm
+      simp only [bIds, List.mem_map] at hm
+      obtain ⟨x, hx, rfl⟩ := hm
+      have := hb x hx
+      omega
+    have hq0 : (qIds s).count p = 0 := by
+      apply List.count_eq_zero.mpr
+      intro hm
+      have := hq p hm
+      omega
+    have ho0 : s.orphaned.count p = 0 := by simp [ho]
+    have : 0 < (dIds s).count p := by omega
+    exact List.count_pos_iff.mp this
+  obtain ⟨e, he⟩ := awaitAll_of_all_delivered s.delivered task.waits hall
+  let r : Res := match e with | none => ⟨0, false⟩ | some x => x
+  have hok : finOK e r = true := by
+    cases e with
+    | none => rfl
+    | some x => simp [finOK, r]
+  refine ⟨t.id, r, ?_⟩
+  simp [step, hc, hf, he, hok, htlo]
+
+
+/-! ### stale work, pigeonhole, the contract invariant, the potential -/
+/-- Work left over from earlier executions. -/
+def staleWork (s : St) : Nat :=
+  2 * (s.running.filter (fun t => decide (t.id < s.execStart))).length +
+    (s.blocked.filter (fun x => decide (x.1 < s.execStart))).length
+
+theorem filter_filter_lt {α} (f : α → Nat) (t lo : Nat) (l : List α) (h : ∃ x ∈ l, f x = t) (ht : t < lo) :
+    ((l.filter (fun x => f x != t)).filter (fun x => decide (f x < lo))).length <
+      (l.filter (fun x => decide (f x < lo))).length := by
+  induction l with
+  | nil => obtain ⟨x, hx, _⟩ := h; cases hx
+  | cons a l ih =>
+    by_cases ha : f a = t
+    · have h1 : (f a != t) = false := by simp [ha]
+      have h2 : decide (f a < lo) = true := by simp [ha, ht]
+      simp only [List.filter_cons, h1, h2, if_true, List.length_cons]
+      have : ((l.filter (fun x => f x != t)).filter (fun x => decide (f x < lo))).length ≤
+          (l.filter (fun x => decide (f x < lo))).length :=
+        (List.Sublist.filter _ List.filter_sublist).length_le
+      simp only [Bool.false_eq_true, if_false]
+      omega
+    · have h1 : (f a != t) = true := by simpa using ha
+      have hex : ∃ x ∈ l, f x = t := by
+        obtain ⟨x, hx, hfx⟩ := h
+        simp at hx
+        rcases hx with rfl | hx
+        · exact absurd hfx ha
+        · exact ⟨x, hx, hfx⟩
+      have := ih hex
+      simp only [List.filter_cons, h1, if_true]
+      by_cases hlo : f a < lo
+      · have h2 : decide (f a < lo) = true := by simpa using hlo
+        simp only [h2, if_true, List.length_cons]
+        omega
+      · have h2 : decide (f a < lo) = false := by simpa using hlo
+        simp only [h2, Bool.false_eq_true, if_false]
+        exact this
+
+theorem length_filter_split {α} (p : α → Bool) (l : List α) :
+    l.length = (l.filter p).length + (l.filter (fun x => !p x)).length := by
+  induction l with
+  | nil => rfl
+  | cons a l ih =>
+    cases hp : p a <;> simp [hp, ih] <;> omega
+
+theorem nodup_lt_length (n : Nat) : ∀ (l : List Nat), l.Nodup → (∀ x ∈ l, x < n) → l.length ≤ n := by
+  induction n with
+  | zero =>
+    intro l _ h
+    cases l with
+    | nil => simp
+    | cons a l => exact absurd (h a (by simp)) (Nat.not_lt_zero _)
+  | succ n ih =>
+    intro l hn h
+    have h1 : (l.filter (fun x => x != n)).length ≤ n := by
+      apply ih
+      · exact hn.sublist List.filter_sublist
+      · intro x hx
+        have := List.mem_filter.mp hx
+        have h2 := h x this.1
+        have h3 : x ≠ n := by simpa using this.2
+        omega
+    have h2 : l.length ≤ (l.filter (fun x => x != n)).length + 1 := by
+      have hc : l.count n ≤ 1 := List.nodup_iff_count.mp hn n
+      have := length_filter_split (fun x => x != n) l
+      have hcnt : (l.filter (fun x => !(x != n))).length = l.count n := by
+        rw [List.count_eq_length_filter]
+        congr 1
+        apply List.filter_congr
+        intro x _
+        cases hx : x == n <;> simp [bne, hx]
+      omega
+    omega
+
+theorem delivered_le_next {c : Cfg} {s : St} (h : Reachable c s) : s.delivered.length ≤ s.next := by
+  have hn : (s.delivered.map (·.1)).Nodup := by
+    apply List.nodup_iff_count.mpr
+    intro a
+    have := h.idsOK a
+    unfold cnt dIds at this
+    split at this <;> omega
+  have := nodup_lt_length s.next (s.delivered.map (·.1)) hn (by
+    intro x hx
+    apply h.idsOK.lt_of_pos
+    have : 0 < (dIds s).count x := List.count_pos_iff.mpr hx
+    unfold cnt; omega)
+  simpa using this
+
+
+theorem addToBatch_dests_ne (bs : List Batch) (k item p : Nat) (h : ∀ b ∈ bs, b.dests ≠ []) :
+    ∀ b ∈ addToBatch bs k item p, b.dests ≠ [] := by
+  induction bs with
+  | nil => intro b hb; simp [addToBatch] at hb; subst hb; simp
+  | cons a bs ih =>
+    intro b hb
+    simp only [addToBatch] at hb
+    split at hb
+    · simp at hb
+      rcases hb with rfl | hb
+      · simp
+      · exact h b (by simp [hb])
+    · simp at hb
+      rcases hb with rfl | hb
+      · exact h b (by simp)
+      · exact ih (fun b hb => h b (by simp [hb])) b hb
+
+theorem flushDel_ne (rs : List (Nat × List Res)) (bs : List Batch) (hne : bs ≠ [])
+    (hd : ∀ b ∈ bs, b.dests ≠ []) (hwf : ∀ b ∈ bs, (resultsFor rs b.key).length = b.dests.length) :
+    flushDel rs bs ≠ [] := by
+  cases bs with
+  | nil => exact absurd rfl hne
+  | cons b bs =>
+    simp only [flushDel]
+    intro e
+    have h1 := (List.append_eq_nil_iff.mp e).2
+    have h2 : (b.dests.zip (resultsFor rs b.key)).length = 0 := by
+      rw [← List.length_reverse, h1]; rfl
+    have h3 := hwf b (by simp)
+    have h4 : b.dests.length ≠ 0 := by
+      intro e0; exact hd b (by simp) (List.length_eq_zero_iff.mp e0)
+    rw [List.length_zip] at h2
+    omega
+
+/-- What every completed idle-handler invocation contributes (batch functions keeping their contract). -/
+structure InvC (s : St) : Prop where
+  batchDests : ∀ b ∈ s.batches, b.dests ≠ []
+  snapPre : (s.phase = .top ∨ s.phase = .drain) → ∃ l, s.delivered = l ++ s.snap
+  drainNew : s.phase = .drain → ∃ l, l ≠ [] ∧ s.delivered = l ++ s.snap
+  waveLe : s.wave ≤ s.delivered.length + (if s.phase = .top then 1 else 0)
+
+theorem invC_init : InvC init := by
+  constructor <;> simp [init]
+
+theorem invC_took {s : St} (hi : IdsOK s) (h : InvC s) {t : Nat} {r : Res} (hm : (t, r) ∈ s.blocked) :
+    InvC (took s t r) := by
+  rw [took_eq hi hm]
+  refine ⟨h.batchDests, ?_, ?_, ?_⟩
+  · intro hp
+    obtain ⟨l, hl⟩ := h.snapPre hp
+    exact ⟨(t, r) :: l, by simp [hl]⟩
+  · intro hp
+    obtain ⟨l, _, hl⟩ := h.drainNew hp
+    exact ⟨(t, r) :: l, by simp, by simp [hl]⟩
+  · have := h.waveLe
+    simp only [List.length_cons]
+    split at this <;> split <;> omega
+
+theorem invC_step {c : Cfg} {s s' : St} {l : Label} (hi : IdsOK s) (h : InvC s) (hwf : l.wellFormedAt s)
+    (hs : step c s l = some s') : InvC s' := by
+  cases l with
+  | go t dep =>
+    obtain ⟨_, hph, rfl, rfl, _⟩ := step_go hs
+    have := h.waveLe
+    exact ⟨h.batchDests, by simp [hph], by simp [hph], by simpa [hph] using this⟩
+  | chain t ps =>
+    obtain ⟨_, hph, rfl, _, rfl⟩ := step_chain hs
+    have := h.waveLe
+    exact ⟨h.batchDests, by simp [hph], by simp [hph], by simpa [hph] using this⟩
+  | batch k item p dep =>
+    obtain ⟨_, hph, rfl, rfl, _⟩ := step_batch hs
+    have := h.waveLe
+    exact ⟨addToBatch_dests_ne _ _ _ _ h.batchDests, by simp [hph], by simp [hph], by simpa [hph] using this⟩
+  | fin t r =>
+    obtain ⟨_, _, _, _, _, _, rfl⟩ := step_fin hs
+    exact ⟨h.batchDests, h.snapPre, h.drainNew, h.waveLe⟩
+  | idle =>
+    obtain ⟨_, hph, _, rfl⟩ := step_idle hs
+    have := h.waveLe
+    refine ⟨h.batchDests, fun _ => ⟨[], by simp⟩, by simp, ?_⟩
+    simp [hph] at this ⊢
+    omega
+  | flush rs =>
+    obtain ⟨_, hph, hne, rfl⟩ := step_flush hs
+    rw [flushAll_fresh s.wave s.execStart rs s.batches s hi.q_not_delivered hi.q_nodup]
+    have hF := flushDel_ne rs s.batches hne h.batchDests hwf
+    obtain ⟨l, hl⟩ := h.snapPre (Or.inl hph)
+    have hlen : 0 < (flushDel rs s.batches).length := List.length_pos_iff.mpr hF
+    have := h.waveLe
+    refine ⟨by simp, fun _ => ⟨flushDel rs s.batches ++ l, by simp [hl]⟩,
+      fun _ => ⟨flushDel rs s.batches ++ l, by simp [hF], by simp [hl]⟩, ?_⟩
+    simp [hph] at this ⊢
+    omega
+  | recvBlock t =>
+    obtain ⟨r, _, _, hph, _, hl, rfl⟩ := step_recvBlock hs
+    have hm := lookup_some_mem hl
+    have ht := invC_took hi h hm
+    have e := took_eq hi hm
+    split
+    · refine ⟨ht.batchDests, ?_, ?_, ?_⟩
+      · intro _
+        have hp' : (took s t r).phase = .top := by rw [e]; exact hph
+        exact ht.snapPre (Or.inl hp')
+      · intro hp; rw [e] at hp; simp [hph] at hp
+      · have := ht.waveLe
+        rw [e] at this ⊢
+        simpa [hph] using this
+    · obtain ⟨l, hl'⟩ := h.snapPre (Or.inl hph)
+      refine ⟨ht.batchDests, fun _ => ?_, fun _ => ?_, ?_⟩
+      · rw [e]; exact ⟨(t, r) :: l, by simp [hl']⟩
+      · rw [e]; exact ⟨(t, r) :: l, by simp, by simp [hl']⟩
+      · have := h.waveLe
+        rw [e]
+        simp [hph] at this ⊢
+        omega
+  | drain t =>
+    obtain ⟨r, _, _, _, hl, rfl⟩ := step_drain hs
+    exact invC_took hi h (lookup_some_mem hl)
+  | idleRet =>
+    obtain ⟨_, _, hph, rfl⟩ := step_idleRet hs
+    have := h.waveLe
+    refine ⟨h.batchDests, by simp, by simp, ?_⟩
+    simpa [hph] using this
+  | ret =>
+    obtain ⟨_, hph, rfl⟩ := step_ret hs
+    have := h.waveLe
+    split
+    · rw [finishBatches_eq hi]
+      refine ⟨by simp, by simp, by simp, ?_⟩
+      simp [hph] at this ⊢
+      omega
+    · refine ⟨h.batchDests, by simp, by simp, ?_⟩
+      simpa [hph] using this
+  | release t =>
+    obtain ⟨r, _, _, _, hl, rfl⟩ := step_release hs
+    exact invC_took hi h (lookup_some_mem hl)
+  | start =>
+    obtain ⟨_, hph, rfl⟩ := step_start hs
+    have := h.waveLe
+    refine ⟨h.batchDests, by simp, by simp, ?_⟩
+    simpa [hph] using this
+
+theorem ReachableWF.invC {c : Cfg} {s : St} (h : ReachableWF c s) : InvC s := by
+  induction h with
+  | init => exact invC_init
+  | step hr hwf hs ih => exact invC_step hr.reachable.idsOK ih hwf hs
+
+
+def phaseRank : Phase → Nat
+  | .exec => 2 | .top => 1 | .drain => 3 | .returned => 0
+
+/-- Potential of a state: three units per unfulfilled promise, the idle handler's measure, and the
+    position in the executor's loop. -/
+def potential (s : St) : Nat := 3 * (s.next - s.delivered.length) + measure s + phaseRank s.phase
+
+/-- What a label may add to the potential: a resolver call creates a promise and a task or batch
+    slot, the start of another execution re-enters the loop. Everything else costs. -/
+def Label.gain : Label → Nat
+  | .go _ _ | .chain _ _ | .batch _ _ _ _ => 5
+  | .start => 2
+  | _ => 0
+
+/-- 1 for the labels that add nothing. -/
+def Label.cost : Label → Nat
+  | .go _ _ | .chain _ _ | .batch _ _ _ _ | .start => 0
+  | _ => 1
+
+theorem addToBatch_length (bs : List Batch) (k item p : Nat) : (addToBatch bs k item p).length ≤ bs.length + 1 := by
+  induction bs with
+  | nil => simp [addToBatch]
+  | cons a bs ih =>
+    simp only [addToBatch]
+    split <;> simp <;> omega
+
+theorem potential_took {s : St} (hi : IdsOK s) {t : Nat} {r : Res} (hm : (t, r) ∈ s.blocked)
+    (hd : s.delivered.length < s.next) :
+    3 * ((took s t r).next - (took s t r).delivered.length) + measure (took s t r) + 4 ≤
+      3 * (s.next - s.delivered.length) + measure s := by
+  have hmz := measure_took hi hm
+  rw [took_eq hi hm] at hmz ⊢
+  simp only [List.length_cons] at hmz ⊢
+  omega
+
+/-- Label sequences in which the batch functions keep their contract. -/
+inductive RunWF (c : Cfg) : St → List Label → St → Prop
+  | nil {s : St} : RunWF c s [] s
+  | cons {s s1 s2 : St} {l : Label} {ls : List Label} :
+      l.wellFormedAt s → step c s l = some s1 → RunWF c s1 ls s2 → RunWF c s (l :: ls) s2
+
+theorem RunWF.reachable {c : Cfg} {s s' : St} {ls : List Label} (hr : RunWF c s ls s') (h : ReachableWF c s) :
+    ReachableWF c s' := by
+  induction hr with
+  | nil => exact h
+  | cons hwf hs _ ih => exact ih (h.step hwf hs)
 
 end ApiFu.C15
